@@ -79,7 +79,7 @@ func (repoImporter) Import(path string) (p *types.Package, err error) {
 	if c, ok := stdCache[path]; ok {
 		return c, nil
 	}
-	if stdWanted[path] {
+	if stdWanted[path] || (extRealOn && transStd[path]) {
 		func() {
 			defer func() {
 				if recover() != nil {
